@@ -18,12 +18,14 @@ import (
 type VarCase struct {
 	Sections []string `json:"sections"` // sections present in the variant
 	Seed     int      `json:"seed"`
+	// VarGeneric: the variant's driver-type section (if present) says 'generic' (the base is 'network')
+	VarGeneric bool `json:"var_generic,omitempty"`
 }
 
-var allSections = []string{"driver-type", "failed-when-contains", "privilege-levels", "default-desired-privilege-level", "network-on-open", "network-on-close"}
+var allSections = []string{"driver-type", "failed-when-contains", "privilege-levels", "default-desired-privilege-level", "network-on-open", "network-on-close", "on-open", "on-close"}
 
 func genVar(t *rapid.T) VarCase {
-	c := VarCase{Seed: rapid.IntRange(0, 999).Draw(t, "seed")}
+	c := VarCase{Seed: rapid.IntRange(0, 999).Draw(t, "seed"), VarGeneric: rapid.Bool().Draw(t, "varGeneric")}
 
 	for _, s := range allSections {
 		if rapid.Bool().Draw(t, "has-"+s) {
@@ -48,6 +50,10 @@ func section(name, who string, seed int) string {
 		return fmt.Sprintf("  network-on-open:\n    - operation: 'driver.send-command'\n      command: '%s open %d'\n", who, seed)
 	case "network-on-close":
 		return fmt.Sprintf("  network-on-close:\n    - operation: 'channel.write'\n      input: '%s close %d'\n", who, seed)
+	case "on-open":
+		return fmt.Sprintf("  on-open:\n    - operation: 'driver.send-command'\n      command: '%s generic open %d'\n", who, seed)
+	case "on-close":
+		return fmt.Sprintf("  on-close:\n    - operation: 'channel.write'\n      input: '%s generic close %d'\n", who, seed)
 	}
 
 	return ""
@@ -77,6 +83,13 @@ func runVar(c VarCase) ev.Verdict {
 
 	for _, s := range c.Sections {
 		has[s] = true
+
+		if s == "driver-type" && c.VarGeneric {
+			sb.WriteString("    driver-type: 'generic'\n")
+
+			continue
+		}
+
 		sb.WriteString(indent(section(s, "var", c.Seed)))
 	}
 
@@ -119,6 +132,8 @@ func runVar(c VarCase) ev.Verdict {
 		"privilege-levels":     fmt.Sprintf("^%s%d[a-z]*", levelsFrom, c.Seed),
 		"network-on-open":      fmt.Sprintf("%s open %d", who("network-on-open"), c.Seed),
 		"network-on-close":     fmt.Sprintf("%s close %d", who("network-on-close"), c.Seed),
+		"on-open":              fmt.Sprintf("%s generic open %d", who("on-open"), c.Seed),
+		"on-close":             fmt.Sprintf("%s generic close %d", who("on-close"), c.Seed),
 	}
 
 	for sect, want := range checks {
@@ -140,8 +155,25 @@ func runVar(c VarCase) ev.Verdict {
 		return ev.Fail("default desired level %q, want %q", p.DefaultDesiredPrivilegeLevel, ddpFrom+"lvl")
 	}
 
-	if p.DriverType != "network" {
-		return ev.Fail("driver type %q", p.DriverType)
+	wantType := "network"
+	if has["driver-type"] && c.VarGeneric {
+		wantType = "generic"
+	}
+
+	if p.DriverType != wantType {
+		return ev.Fail("driver type %q, want %q (variant defines %v, its driver-type says generic: %v)", p.DriverType, wantType, c.Sections, c.VarGeneric)
+	}
+
+	// ... and yields the driver type it declares
+	_, gerr := p.GetGenericDriver()
+	_, nerr := p.GetNetworkDriver()
+
+	if wantType == "generic" && (gerr != nil || nerr == nil) {
+		return ev.Fail("variant declares a generic driver: GetGenericDriver error %v, GetNetworkDriver error %v", gerr, nerr)
+	}
+
+	if wantType == "network" && nerr != nil {
+		return ev.Fail("platform declares a network driver: GetNetworkDriver error %v", nerr)
 	}
 
 	return ev.Verdict{OK: true, NonTrivial: len(c.Sections) > 0 && len(c.Sections) < len(allSections), Classes: []string{fmt.Sprintf("sections=%d", len(c.Sections))}}
